@@ -509,7 +509,10 @@ def upper_lower(it, s, up):
             lo, hi, d = (97, 122, -32) if up else (65, 90, 32)
             if B(it, z3.And(c >= lo, c <= hi)): out.append(c + d)
             elif B(it, c < 128): out.append(c)
-            else: raise Unsupported('case mapping of symbolic non-ASCII char')
+            else:
+                v = it.ctx.concretize(c)
+                if v is None: raise Unsupported('case mapping of symbolic non-ASCII char')
+                out.extend(ord(x) for x in (chr(v).upper() if up else chr(v).lower()))
     return SStr(out)
 reg(r'(?:std|alloc|core)::str::<impl str>::to_uppercase', lambda it, s: upper_lower(it, s, True))
 reg(r'(?:std|alloc|core)::str::<impl str>::to_lowercase', lambda it, s: upper_lower(it, s, False))
